@@ -4,8 +4,10 @@ Contracts describe ONE sequential execution; "any scheduler, any worker count, a
 schedules that contract-based deductive verification cannot decide, and dask / pygmo are external. What IS decided:
   parallel.params[mode]   the parameter array handed to the parallel machinery enumerates the same space as the sequential
                           path (same contracts as C05; sequential mode is a known finding)
+  task.copy / *.separate  Processor.replace / __deepcopy__ give a copy that shares no mutable object (bucket arrays, argument
+                          lists / dictionaries, detector memory) with the template processor read by all tasks (C06's unit)
   task.isolated           the function that dask applies per parameter cell works on its own copy of the processor
-                          (Processor.replace, proved separate in C06), a new Readout, files carrying its own index, and
+                          (Processor.replace), a new Readout, files carrying its own index, and
                           passes the shared processor / readout / outputs on without writing them (data-flow obligations)
   task.same_as_sequential the per-cell task calls exposure.run_pipeline with the same seed / readout / inherited-coordinates
                           arguments as the sequential path does
@@ -20,8 +22,8 @@ from __future__ import annotations
 import ast
 
 from .common import *  # noqa: F401,F403
-from . import C05
-from .C20 import normalise_expr
+from . import C05, C06, boundary
+from . import defuse as DU
 
 OD = "pyxel/observation/observation_dask.py"
 LEVEL = "other"
@@ -31,54 +33,132 @@ TRUSTED = ["NOT DECIDED by this technique: independence from the dask scheduler,
 EXPLANATION = "Only necessary conditions of the property are decided (frame-disjointness premises and equality of the enumerated parameter space)."
 
 unit("C07", "parallel.params")(C05.parallel_params)
+# the copy each task works on (Processor.replace -> Processor.__deepcopy__ -> ModelGroup / ModelFunction / Arguments copies)
+# shares no mutable object with the template processor that all concurrently running tasks read: same obligations as C06
+unit("C07", "task.copy")(C06.deepcopy_unit)
+
+
+def _roots_written(fn_node, names):
+    writes = []
+    for n in ast.walk(fn_node):
+        if isinstance(n, (ast.Assign, ast.AugAssign, ast.AnnAssign)):
+            for t in (n.targets if isinstance(n, ast.Assign) else [n.target]):
+                root = t
+                while isinstance(root, (ast.Attribute, ast.Subscript)):
+                    root = root.value
+                if isinstance(t, (ast.Attribute, ast.Subscript)) and isinstance(root, ast.Name) and root.id in names:
+                    writes.append(ast.unparse(t))
+    return writes
 
 
 @unit("C07", "task")
 def task(u: Unit):
+    """The per-cell task, by symbolic execution of the real `_run_pipelines_array_to_datatree` (1 and 2 parameters, symbolic
+    keys and values; processor / readout / outputs are boundary objects whose method calls are recorded)."""
     fa = u.fn(f"{OD}::_run_pipelines_array_to_datatree")
-    src = ast.unparse(fa.node)
-    calls = [n for n in ast.walk(fa.node) if isinstance(n, ast.Call) and ast.unparse(n.func) == "run_pipeline"]
-    one = len(calls) == 1
-    u.static("task.isolated[one exposure per cell]", one, fa.qualname, f"{len(calls)} calls of exposure.run_pipeline in the per-cell task")
-    if one:
-        kw = {k.arg: normalise_expr(fa.node, calls[0].keywords, k.arg) for k in calls[0].keywords}
-        u.static("task.isolated[own processor copy]", kw.get("processor") == "processor.replace(dict(zip(dimension_names,params_tuple,strict=False)))", fa.qualname, f"processor argument: {kw.get('processor')}")
-        u.static("task.isolated[own file index]", kw.get("output_filename_suffix") == "output_filename_suffix", fa.qualname, f"output_filename_suffix argument: {kw.get('output_filename_suffix')}")
-        u.static("task.same_as_sequential[seed]", kw.get("pipeline_seed") == "pipeline_seed", fa.qualname, f"pipeline_seed argument: {kw.get('pipeline_seed')}")
-        u.static("task.same_as_sequential[readout]", kw.get("readout") in ("readout", "new_readout") and "new_readout: Readout = readout" in src and "new_readout = new_readout.replace(times=value)" in src,
-                 fa.qualname, "readout argument is the shared readout or a NEW object from Readout.replace (the shared one is never written)")
-    # the shared objects are only read: no assignment to their attributes / items in the task functions
+    for n in (1, 2):
+        cfg = Cfg("real")
+        boundary.install(cfg)
+        rec = {}
+
+        def run_pipe(ex, args, kwargs, fr, rec=rec):
+            rec.setdefault("runs", []).append(dict(kwargs))
+            return VOpaque("xr", ex.st.fresh_int("tree"), {"label": "data_tree"})
+        cfg.contracts["pyxel/exposure/exposure.py::run_pipeline"] = Contract("pyxel/exposure/exposure.py::run_pipeline", run_pipe, "exposure (C02)")
+        keys = [VStr(z3.String(f"dim_key{i}")) for i in range(n)]
+        vals = [VInt(z3.Int(f"param{i}")) for i in range(n)]
+        shared = {}
+
+        def setup(ex, n=n, rec=rec, shared=shared):
+            rec.clear()
+            if n == 2:
+                ex.st.assume(keys[0].v != keys[1].v)
+            o = lambda l: VOpaque("xr", ex.st.fresh_int("xr"), {"label": l, "truthy": True})
+            shared.update(processor=o("processor"), readout=o("readout"), outputs=o("outputs"))
+            dn = ex.st.alloc(HDict([(k, VStr(f"short{i}")) for i, k in enumerate(keys)]))
+            return [], {"params_tuple": VTuple(list(vals)), "output_filename_suffix": VInt(z3.Int("file_index")), "dimension_names": dn,
+                        "processor": shared["processor"], "readout": shared["readout"], "outputs": shared["outputs"], "pipeline_seed": VInt(z3.Int("seed")),
+                        "progressbar": VBool(False)}
+        ps = u.paths(fa, setup, cfg, label=f"_run_pipelines_array_to_datatree[{n}]")
+        n_ret = 0
+        for p in ps:
+            if p.kind != "return":
+                continue        # NotImplementedError for unsupported readout keys: no run
+            n_ret += 1
+            runs = rec.get("runs", [])
+            u.oblige(p, f"task.isolated[one exposure per cell:{n}]", bool(len(runs) == 1), {})
+            if len(runs) != 1:
+                continue
+            kw = runs[0]
+            reps = [e for e in p.st.events if e[0] == "xr_call" and str(e[1]) == "processor.replace"]
+            proc = kw.get("processor")
+            ok = len(reps) == 1 and isinstance(proc, VOpaque) and proc.info.get("fn") is not None and proc.info["fn"].info.get("of") is shared["processor"] and proc is not shared["processor"]
+            if ok:
+                d = p.ex.try_dict(reps[0][2][0]) if reps[0][2] else None
+                ok = d is not None and len(d) == n and all(z3.eq(z_str(k.v), z_str(keys[i].v)) and v is vals[i] for i, (k, v) in enumerate(d))
+            u.oblige(p, f"task.isolated[own processor copy:{n}]", bool(ok), {})
+            u.oblige(p, f"task.isolated[own file index:{n}]", bool(kw.get("output_filename_suffix") is not None and isinstance(kw["output_filename_suffix"], VInt) and z3.eq(z_int(kw["output_filename_suffix"].v), z3.Int("file_index"))), {})
+            u.oblige(p, f"task.same_as_sequential[seed:{n}]", bool(isinstance(kw.get("pipeline_seed"), VInt) and z3.eq(z_int(kw["pipeline_seed"].v), z3.Int("seed"))), {})
+            ro = kw.get("readout")
+            chain_ok = ro is shared["readout"]
+            if not chain_ok and isinstance(ro, VOpaque):        # a NEW readout made by Readout.replace(times=<this cell's value>)
+                fn_ = ro.info.get("fn")
+                chain_ok = fn_ is not None and str(fn_.info.get("attr")) == "replace" and set(ro.info.get("kwargs", {})) == {"times"} and any(ro.info["kwargs"]["times"] is v for v in vals)
+            u.oblige(p, f"task.same_as_sequential[readout:{n}]", bool(chain_ok), {})
+            u.oblige(p, f"task.isolated[shared outputs passed on:{n}]", bool(kw.get("outputs") is shared["outputs"]), {})
+            wr = [e for e in p.st.events if e[0] in ("xr_setattr", "xr_setitem") and any(e[-1] is shared[k] for k in shared)]
+            u.oblige(p, f"task.isolated[writes no shared object:{n}]", bool(not wr), {})
+        u.cover(f"task.cover[{n}]", [1] * n_ret, lambda _: True)
+    # the dask task wrapper forwards its cell's arguments unchanged (data-flow, def-use resolved)
+    ft = u.fn(f"{OD}::_run_pipelines_tuple_to_array")
+    cs = DU.calls(ft.node, "_run_pipelines_array_to_datatree")
+    kw = DU.kw_args(ft.node, cs[0]) if len(cs) == 1 else {}
+    want = {"params_tuple": "params_tuple", "output_filename_suffix": "output_filename_suffixes", "processor": "processor", "readout": "readout", "outputs": "outputs",
+            "pipeline_seed": "pipeline_seed", "dimension_names": "dimension_names"}
+    u.static("task.tuple_wraps_array", len(cs) == 1 and all(kw.get(k) == v for k, v in want.items()), ft.qualname,
+             f"the dask task forwards its cell's parameters, file index and the shared (read-only) objects to the per-cell function: {kw}")
     for q in ("_run_pipelines_array_to_datatree", "_run_pipelines_tuple_to_array"):
         fn = u.fn(f"{OD}::{q}")
-        writes = []
-        for n in ast.walk(fn.node):
-            if isinstance(n, (ast.Assign, ast.AugAssign, ast.AnnAssign)):
-                for t in (n.targets if isinstance(n, ast.Assign) else [n.target]):
-                    root = t
-                    while isinstance(root, (ast.Attribute, ast.Subscript)):
-                        root = root.value
-                    if isinstance(t, (ast.Attribute, ast.Subscript)) and isinstance(root, ast.Name) and root.id in ("processor", "readout", "outputs", "dimension_names", "output_dimensions"):
-                        writes.append(ast.unparse(t))
+        writes = _roots_written(fn.node, ("processor", "readout", "outputs", "dimension_names", "output_dimensions"))
         u.static(f"task.isolated[{q} writes no shared object]", not writes, fn.qualname, f"assignments into shared arguments: {writes}")
-    ft = u.fn(f"{OD}::_run_pipelines_tuple_to_array")
-    s2 = ast.unparse(ft.node).replace(" ", "")
-    u.static("task.tuple_wraps_array", "_run_pipelines_array_to_datatree(" in s2 and "output_filename_suffix=output_filename_suffixes" in s2 and "processor=processor" in s2, ft.qualname,
-             "the dask task forwards its cell's parameters, file index and the shared (read-only) processor to the per-cell function")
 
 
 @unit("C07", "fileindex")
 def fileindex(u: Unit):
     fn = u.fn(f"{OD}::run_pipelines_with_dask")
-    s = ast.unparse(fn.node).replace(" ", "")
-    u.static("fileindex.injective", "np.arange(params_dataarray.size).reshape(params_dataarray.shape)" in s and "dims=params_dataarray.dims" in s, fn.qualname,
-             "output_filename_indices = arange(size).reshape(shape) on the dims of the parameter array: distinct suffix per cell",
+    cs = DU.calls(fn.node, "apply_ufunc")
+    pos = DU.pos_args(fn.node, cs[0]) if len(cs) == 1 else []
+    # the file-index array: may be bound in a branch (`if outputs:`), so look at every binding of the name passed
+    idx_exprs = []
+    if len(pos) >= 3:
+        name = ast.unparse(cs[0].args[2])
+        for n in ast.walk(fn.node):
+            if isinstance(n, (ast.Assign, ast.AnnAssign)) and n.value is not None and not (isinstance(n.value, ast.Constant) and n.value.value is None):
+                tgt = n.targets[0] if isinstance(n, ast.Assign) else n.target
+                if isinstance(tgt, ast.Name) and tgt.id == name:
+                    idx_exprs.append(DU.norm(fn.node, n.value))
+        if not idx_exprs:
+            idx_exprs = [pos[2]]
+    P = "parameter_mode.create_params(dim_names=dim_names)"        # the parameter array (locals resolved)
+    inj = bool(idx_exprs) and all(f"np.arange({P}.size).reshape({P}.shape)" in e and f"dims={P}.dims" in e and e.endswith(".chunk(1)") for e in idx_exprs)
+    u.static("fileindex.injective", inj, fn.qualname,
+             f"file indices = arange(size).reshape(shape) on the dims of the parameter array, one chunk per cell: {idx_exprs}",
              replay=lambda w: {"code": "VIOLATED, DETAIL = False, 'structural obligation on run_pipelines_with_dask (see detail)'", "expect": "one file index per parameter cell"})
-    u.static("fileindex.passed_per_chunk", "params_dataarray.chunk(1),output_filename_indices," in s, fn.qualname, "parameters and file indices are chunked one cell per task, in the same positions")
+    u.static("fileindex.passed_per_chunk", len(pos) >= 3 and pos[0] == "_run_pipelines_tuple_to_array" and pos[1] == P + ".chunk(1)", fn.qualname,
+             f"apply_ufunc(task, parameters chunked one cell per task, file indices): {pos[:3]}")
+    kd = DU.dict_arg(fn.node, next((k.value for k in cs[0].keywords if k.arg == "kwargs"), None)) if len(cs) == 1 else None
+    want = {"dimension_names": "dim_names", "processor": "processor", "outputs": "outputs", "readout": "readout", "pipeline_seed": "pipeline_seed"}
+    u.static("task.shared_arguments_forwarded", kd is not None and all(kd.get(k) == v for k, v in want.items()), fn.qualname, f"kwargs of apply_ufunc: {kd}")
 
 
 @unit("C07", "islands")
 def islands(u: Unit):
     fb = u.fn("pyxel/calibration/archipelago_datatree.py::ArchipelagoDataTree._build")
-    s = ast.unparse(fb.node).replace(" ", "")
-    ok = "it=executor.map(create_island,seeds)" in s and "it=map(create_island,seeds)" in s and s.count("self._pygmo_archi.push_back(island)") == 2
-    u.static("islands.order", ok, fb.qualname, "islands come from (executor.)map over the seed list and are pushed back in iteration order, with and without threads")
+    maps = [c for c in ast.walk(fb.node) if isinstance(c, ast.Call) and (ast.unparse(c.func) == "map" or ast.unparse(c.func).endswith(".map"))]
+    ok_maps = len(maps) >= 1 and all(len(c.args) == 2 and ast.unparse(c.args[0]) == "create_island" and ast.unparse(c.args[1]) == "seeds" for c in maps)
+    loops = [n for n in ast.walk(fb.node) if isinstance(n, ast.For) and any(isinstance(c, ast.Call) and ast.unparse(c.func).endswith("push_back") for c in ast.walk(n))]
+    ok_loops = len(loops) == len(maps) and all(
+        len([c for c in ast.walk(l) if isinstance(c, ast.Call) and ast.unparse(c.func).endswith("push_back")]) == 1 and
+        any(isinstance(c, ast.Call) and ast.unparse(c.func).endswith("push_back") and len(c.args) == 1 and ast.unparse(c.args[0]) == ast.unparse(l.target) for c in ast.walk(l))
+        for l in loops)
+    u.static("islands.order", ok_maps and ok_loops, fb.qualname, "islands come from (executor.)map(create_island, seeds) and each one is pushed back once, in iteration order, with and without threads")
